@@ -59,7 +59,10 @@ pub(super) fn read_frequencies(src: &mut &[u8]) -> io::Result<Frequencies> {
             for _ in 0..len {
                 let f = read_itf8_as(src)?;
                 frequencies[usize::from(sym)] = f;
-                sym += 1;
+
+                sym = sym.checked_add(1).ok_or_else(|| {
+                    io::Error::new(io::ErrorKind::InvalidData, "invalid symbol run length")
+                })?;
             }
         }
 
@@ -128,6 +131,23 @@ mod tests {
         assert_eq!(read_frequencies(&mut &src[..])?, expected);
 
         Ok(())
+    }
+
+    #[test]
+    fn test_read_frequencies_with_run_past_last_symbol() {
+        let src = [
+            0xfe, // symbol = 254
+            0x05, // frequencies[254] = 5
+            0xff, // symbol = 255
+            0x01, // run length = 1
+            0x01, // frequencies[255] = 1
+            0x00, // EOF
+        ];
+
+        assert!(matches!(
+            read_frequencies(&mut &src[..]),
+            Err(e) if e.kind() == io::ErrorKind::InvalidData
+        ));
     }
 
     #[test]
